@@ -136,6 +136,9 @@ def run(ctx, rep):
     c16.eof_distinct(rep, lib)
     c16.no_drop(rep, lib)
     c06_shared.recover(rep, lib, require_recoverable=True)
+    # ... and a write that is held in a buffer of the library's own (flushed on drop, or by a complete() that some
+    # stage does not forward) fails after go() has answered Ok: the output side of the raw-I/O census
+    c16.raw_io(rep, lib, side="output")
 
 
 def _ops(rv):
